@@ -427,8 +427,11 @@ func (sm *SealManager) performRootRotation(ctx context.Context, ns *namespace.Na
 
 	if isShamirSeal {
 		if len(newSealKey) > 0 {
+			// The namespace's own copy: a namespace barrier does not prefix
+			// the keys it is handed, so the bare path would be the root
+			// namespace's core/shamir-kek.
 			err := b.Put(ctx, &logical.StorageEntry{
-				Key:   barrier.ShamirKekPath,
+				Key:   NamespaceStoragePathPrefix(ns) + barrier.ShamirKekPath,
 				Value: newSealKey,
 			})
 			if err != nil {
